@@ -293,7 +293,8 @@ static void case_c06(const drvargs_t *a,long id,const char *envpath){
       res_count("channel_identity_checks",lim);
     }
     /* quality envelope on band-limited multi-tones */
-    if((c.sig==SIG_MULTI||c.sig==SIG_GATED||c.sig==SIG_WIDE) && !nonfinite){
+    if((c.sig==SIG_MULTI||c.sig==SIG_GATED||c.sig==SIG_WIDE) && !nonfinite && ssum<=0){ res_count("inputs_digitally_silent_throughout_not_judged_for_snr",1); res_metric("output_peak_for_silent_input",pout); }   /* a gated signal can be silent in every segment: no signal, no SNR */
+    if((c.sig==SIG_MULTI||c.sig==SIG_GATED||c.sig==SIG_WIDE) && !nonfinite && ssum>0){
       if(managed){ double bps=(double)c.br_nom/((double)c.rate*c.channels); snprintf(key,sizeof key,"snr|%s|b%d|abr%d|c%d",sig_name(c.sig),rate_band(c.rate),bps<1.2?0:bps<1.6?1:2,c.channels>2?3:c.channels); }
       else snprintf(key,sizeof key,"snr|%s|b%d|q%d|c%d",sig_name(c.sig),rate_band(c.rate),qi[k],c.channels>2?3:c.channels);
       res_metric(key,snr);
